@@ -141,7 +141,7 @@ class C04(F.Check):
         'application stays silent (client-closing prefix: one close() at Ready)',
         "don't-care inputs (RSV1 on control/continuation under deflate, non-minimal control lengths, close codes 1012-1014 and >=5000, frames after a server Close) are executed but their verdict is not compared",
     ]
-    expect_sites = ('violation', 'valid', 'dontcare', 'client-closing')
+    expect_sites = ('violation', 'valid', 'dontcare', 'client-closing', 'timed')
 
     def rule(self, tier):
         return ('cases: (a) every (byte0, byte1) header completed to a frame, after prefix state idle/mid-binary/mid-text, plain and negotiated deflate; '
@@ -162,6 +162,7 @@ class C04(F.Check):
             jobs.append({'k': 'cls', 'prefix': pname, 'tier': tier, 'classes': vm})
         for lo in range(0, 65536, 2048):
             jobs.append({'k': 'codes', 'lo': lo, 'hi': lo + 2048})
+        jobs.append({'k': 'timed', 'classes': vm})
         return jobs
 
     # ------------------------------------------------------------------ single case
@@ -175,6 +176,9 @@ class C04(F.Check):
         elif k == 'cls':
             frames = prefix_menu(case.get('tier', 'thorough'))[case['prefix']] + violation_menu()[case['cls']] + TRAILER
             mode = case['mode']
+        elif k == 'timed':
+            frames = prefix_menu('quick')[case['prefix']] + violation_menu()[case['cls']] + TRAILER
+            mode = 'one'
         else:
             frames = [SFrame(TEXT, b'a'), SFrame(CLOSE, ref_ws.close_payload(case['code'], b'x')), ]
             mode = 'one'
@@ -188,6 +192,19 @@ class C04(F.Check):
             def app(world, ws, e):
                 if e.name == 'ready':
                     ws.close()
+        if case['k'] == 'timed':
+            # the violating read arrives `delay` after Ready while automatic pings are enabled: housekeeping that is due at that
+            # wake-up must not write anything once the violation has been received
+            blob = b''.join(f.encode() for f in frames)
+            from .. import world as W
+            server = W.Script([W.HANDSHAKE(b''), W.Data(blob, delay=case['delay'])])
+            world = W.World(server, max_waits=40)
+            with world:
+                ws = W.L_websocket.WebSocket('ws://example.com/x', proxies={})
+                world._ws = ws
+                run = W.drive(world, ws, ws.connect(poll=case['poll'], ping_rate=case['rate'], close_timeout=None))
+            problems, stop = scen.judge(run, frames, None, negotiated=False, auto_pings=True)
+            return run, problems, stop
         run = scen.play(frames, mode, ext=EXT if neg else b'', compress=neg, app=app, hash_states=hashes)
         inflate = scen.deflate_peer_inflate() if neg else None
         if closing:
@@ -247,6 +264,15 @@ class C04(F.Check):
                                     continue
                                 self._cls_case(res, dict(case, mode=[cut]))
             res.samples.append({'case': case, 'frames': [f.brief() for f in self.build(case)[0]]})
+        elif job['k'] == 'timed':
+            for cls in job['classes']:
+                for prefix in ('fresh', 'after-text', 'mid-text-ping'):
+                    for (poll, rate, delay) in ((5, 3, 4), (5, 5, 6), (2, 3, 1), (5, 30, 31), (3, 3, 3)):
+                        case = {'k': 'timed', 'cls': cls, 'prefix': prefix, 'poll': poll, 'rate': rate, 'delay': delay}
+                        run, problems, stop = self.run_case(case)
+                        self.account(res, case, run, problems, stop)
+                        res.covered.add('timed')
+            res.samples.append({'case': case, 'events': run.names})
         else:
             for code in range(job['lo'], job['hi']):
                 case = {'k': 'codes', 'code': code}
